@@ -4,6 +4,7 @@
 -/
 import Csvq.Lemmas.Keys
 import Csvq.Lemmas.Group
+import Csvq.Lemmas.Text
 namespace Csvq.C04
 open Csvq
 
@@ -70,6 +71,13 @@ theorem norm_negzero (p q : Profile) (hp : p.isNull = false) (hq : q.isNull = fa
     (h1 : p.int? = none) (h2 : q.int? = none) (hf : p.flt? = some .negz) (hg : q.flt? = some (.fin 0)) :
     norm p = norm q := by
   simp [norm, hp, hq, h1, h2, hf, hg]
+
+/-- for the integer and datetime part of the key nothing is assumed: the decimal text the driver and
+    the theorems use (`decText`, compared byte for byte with strconv.FormatInt by the stream) is injective
+    and free of ':' and '\\'; only the float text remains an assumption of `KeyTextOK` -/
+theorem keytext_ok_of_float (ftext : FVal → Bytes) (finj : ∀ f g, ftext f = ftext g → f = g)
+    (fclean : ∀ f, Clean (ftext f)) : KeyTextOK { itext := decText, ftext := ftext } :=
+  { iinj := decText_injective, finj := finj, iclean := decText_clean, fclean := fclean }
 
 /-! ## bucketing: every worker count, every chunking — same buckets, same order, members in row order -/
 
